@@ -205,11 +205,14 @@ fn run_seqlock<const W: usize>(prog: &Prog, schedule: Vec<usize>, random: bool, 
 fn gen_conn_prog(rng: &mut Rng, misuse: bool) -> Prog {
     let nthreads = rng.range(2, 3);
     let mut threads = vec![];
+    // one alternative setting per program: 3 buffer size, 4 max borrowed, 5 safe overflow, 6 number of samples,
+    // 7 number of segments, 8 number of channels — each differs from the base (2) in exactly that setting
+    let alt = rng.range(3, 8);
     for i in 0..nthreads {
         let role = if i == 0 { "sender" } else if i == 1 { "receiver" } else { *rng.pick(&["sender", "receiver"]) };
         let mut ops = vec![];
         for _ in 0..rng.range(1, 2) {
-            let param = if rng.chance(80) { 2 } else { 3 }; // buffer size; 3 = mismatch with the usual 2
+            let param = if rng.chance(75) { 2 } else { alt };
             ops.push(format!("create_{role} {param}"));
             match rng.below(10) {
                 0..=6 => ops.push(format!("drop_{role}")),
@@ -222,7 +225,7 @@ fn gen_conn_prog(rng: &mut Rng, misuse: bool) -> Prog {
         }
         threads.push(ops);
     }
-    Prog { header: "conn".to_string(), threads }
+    Prog { header: format!("conn alt={alt}"), threads }
 }
 
 static CONN_COUNTER: std::sync::atomic::AtomicUsize = std::sync::atomic::AtomicUsize::new(0);
@@ -236,8 +239,14 @@ fn run_conn(prog: &Prog, schedule: Vec<usize>, random: bool, seed: u64) -> Outco
     type B = <Connection as ZeroCopyConnection>::Builder;
     let n = CONN_COUNTER.fetch_add(1, std::sync::atomic::Ordering::Relaxed);
     let name = FileName::new(format!("vc{n}").as_bytes()).unwrap();
-    fn builder(name: &FileName, buf: usize) -> B {
-        B::new(name).buffer_size(buf).receiver_max_borrowed_chunks_per_channel(2).number_of_chunks_per_segment(8)
+    fn builder(name: &FileName, param: usize) -> B {
+        B::new(name)
+            .buffer_size(if param == 3 { 3 } else { 2 })
+            .receiver_max_borrowed_chunks_per_channel(if param == 4 { 3 } else { 2 })
+            .enable_safe_overflow(param == 5)
+            .number_of_chunks_per_segment(if param == 6 { 9 } else { 8 })
+            .max_supported_shared_memory_segments(if param == 7 { 2 } else { 1 })
+            .number_of_channels(if param == 8 { 2 } else { 1 })
     }
     fn err(e: ZeroCopyCreationError) -> String {
         format!("err:{e:?}")
